@@ -283,6 +283,8 @@ def rand_history(rng):
         spec = {"id": rng.choice(["t%d", "t\xe9%d", "mod.T.test %d"]) % (k if rng.random() < 0.85 else max(1, k - 1)),
                 "outcome": outcome,
                 "form": rng.choice(forms), "kind": rng.choice(["placeholder", "testcase"])}
+        if rng.random() < 0.03:
+            spec["id"] = ""      # an (odd) test id; only None means "no test"
         if spec["form"] == "details":
             spec["details"] = [rand_detail(rng, n) for n in rng.sample(NAMES, rng.randint(0, 4))]
             if outcome == "addSkip" and rng.random() < 0.6:
